@@ -165,6 +165,9 @@ public:
 private:
     struct ipsec_header {
         uint8_t next_header, length;
+        // Named so it's value-initialized and copied with the rest of the header
+        // (it used to be implicit struct padding, which is indeterminate after a copy)
+        uint16_t reserved;
         uint32_t spi, seq_number;
     };
 
